@@ -300,3 +300,130 @@ def rule_ctor_siblings(progs, tier, adt="trees::bp::BalancedParens", producer="t
             else:
                 res.ok({"ctor": f.id, "fields_from_producer": len(m), "mapping": "agrees with siblings" + (" and with producer's local names" if truth else "")})
     return out
+
+
+# ------------------------------------------------------------------------------------------
+def _field_writes(f, field):
+    """(bb, line, operand) for every store to a struct field named `field` (direct field
+    assignment through any place, or as a member of a struct literal)."""
+    out = []
+    for bi, b in enumerate(f.blocks):
+        for s in b["s"]:
+            if s[0] != "a":
+                continue
+            proj = s[1][1]
+            if proj and isinstance(proj[-1], list) and proj[-1][0] == "f" and proj[-1][2] == field:
+                if s[2][0] == "use":
+                    out.append((bi, s[3], s[2][1], "assign"))
+                else:
+                    out.append((bi, s[3], ("rv", s[2]), "assign"))
+            if s[2][0] == "agg" and s[2][1].get("k") == "adt" and field in s[2][1].get("fields", []):
+                i = s[2][1]["fields"].index(field)
+                out.append((bi, s[3], s[2][2][i], "literal"))
+    return out
+
+
+def _slice_of_operand(f, op):
+    if op is None or op[0] == "k":
+        return None
+    if op[0] == "rv":
+        from .dataflow import Slice as DSlice, operands_of_rvalue
+
+        tot = DSlice()
+        rv = op[1]
+        if rv[0] == "bin":
+            tot.binops.add(rv[1])
+        for o in operands_of_rvalue(rv):
+            s1 = _slice_of_operand(f, o)
+            if s1 is not None:
+                tot.locals |= s1.locals
+                tot.fields |= s1.fields
+                tot.names |= s1.names
+                tot.consts += s1.consts
+                tot.calls += s1.calls
+                tot.casts |= s1.casts
+                tot.binops |= s1.binops
+                tot.params |= s1.params
+        return tot
+    pl = op_place(op)
+    if pl is None:
+        return None
+    from .dataflow import _fields_of
+
+    sl = backward_slice(f, pl[0], max_nodes=80, fields=_fields_of(pl[1]))
+    return sl
+
+
+def _ops_defining(f, l):
+    out = []
+    for bi, kind, p in local_defs(f).get(l, []):
+        out.append(p[0] if kind in ("rv", "partial") else "call")
+    return out
+
+
+def rule_cursor_coupling(progs, tier, impl_re=r"^bits::elias_fano::(EliasFanoCursor|EliasFano::cursor)", pos_field="high_pos", bits_field="remaining_bits", name="COUPLED(EliasFanoCursor)", floor=7):
+    """Representation invariant of a bit-scanning cursor: the lowest set bit of `remaining_bits`
+    is the current element, i.e. it sits at `high_pos % 64`.  Structurally: every value stored
+    to `high_pos` must be computed from `trailing_zeros` of the very value stored to (or read
+    from) `remaining_bits`, or `remaining_bits` must be masked with a mask computed from that
+    `high_pos` (`word & !((1 << (high_pos % 64)) - 1)`).  A position computed by an independent
+    route (e.g. select-in-word on the raw word) leaves the pair uncoupled: the next relative
+    move starts from the wrong bit."""
+    out = []
+    for cfg, P in progs.items():
+        res = RuleResult(name, cfg)
+        out.append(res)
+        for f in sorted(P.fns.values(), key=lambda f: f.id):
+            if f.crate != "lib" or not re.search(impl_re, f.id):
+                continue
+            hw = _field_writes(f, pos_field)
+            rw = _field_writes(f, bits_field)
+            if not hw:
+                continue
+            defs = local_defs(f)
+            for bi, line, hop, how in hw:
+                key = "%s:%s" % (name, f.id)
+                if hop is not None and hop[0] == "k" and isinstance(hop[1], dict):
+                    res.ok({"fn": f.id, "site": how, "high_pos": "constant %s (exhausted / empty cursor)" % hop[1].get("v")})
+                    continue
+                hs = _slice_of_operand(f, hop)
+                if hs is None:
+                    res.bad(key, "%s stores a %s to `%s` that the rule cannot trace (fail closed)" % (f.id, how, pos_field), f.loc(line))
+                    continue
+                ok_how = None
+                # (a) high_pos derives from trailing_zeros(remaining_bits value)
+                tz_calls = [(cb, cn) for cb, cn in hs.calls if cn and cn.endswith("::trailing_zeros")]
+                for cb, cn in tz_calls:
+                    call = next((c for c in f.calls if c.bb == cb), None)
+                    if call is None or not call.args:
+                        continue
+                    asl = _slice_of_operand(f, call.args[0])
+                    if asl is None:
+                        continue
+                    if bits_field in asl.fields:
+                        ok_how = "trailing_zeros(self.%s)" % bits_field
+                        break
+                    for _, _, rop, _ in rw:
+                        rpl = op_place(rop) if (rop is not None and rop[0] in ("c", "m")) else None
+                        if rpl is not None and (rpl[0] in asl.locals or (_slice_of_operand(f, rop).locals & asl.locals and not (set(_slice_of_operand(f, rop).binops) - set(asl.binops)))):
+                            ok_how = "trailing_zeros of the value stored to %s" % bits_field
+                            break
+                    if ok_how:
+                        break
+                # (b) remaining_bits masked by a mask computed from this high_pos
+                if ok_how is None:
+                    for _, _, rop, _ in rw:
+                        rs = _slice_of_operand(f, rop)
+                        if rs is None:
+                            continue
+                        # the mask's shift amount must come from this high_pos (same def chain)
+                        roots = {l for l in hs.locals if not (set(_ops_defining(f, l)) - {"use"})}
+                        if (hs.locals & rs.locals) and "Shl" in rs.binops and "Rem" in rs.binops and (not hs.binops or hs.binops <= rs.binops):
+                            ok_how = "%s = word & !((1 << (%s %% 64)) - 1)" % (bits_field, pos_field)
+                            break
+                if ok_how:
+                    res.ok({"fn": f.id, "site": how, "coupling": ok_how})
+                else:
+                    res.bad(key, "%s stores to `%s` a position that is neither trailing_zeros of the value kept in `%s` nor the source of that value's mask: the cursor invariant (lowest set bit of %s is the current element) is not re-established on this path, so the next relative move starts from the wrong bit" % (f.id, pos_field, bits_field, bits_field), f.loc(line))
+        res.require_floor(floor, "stores to %s" % pos_field)
+    return out
